@@ -1,6 +1,7 @@
 """C13 — the device receives exactly the lines given, and failures stop the run.
 
-Lean: ScrapliModel/Send.lean (+ SendTypes, Gen/SendConsts), ScrapliProps/C13.lean (+ C13Lemmas), Drv/C13.lean.
+Lean: ScrapliModel/Send.lean (+ SendFault = the failing channel, SendTypes, Gen/SendConsts), ScrapliProps/C13.lean
+(+ C13Lemmas, C13FaultLemmas), Drv/C13.lean.
 Real code: the platform drivers (sync and asyncio) over the causal simulated device (tools/harness).
 Per case: run the real driver, run the Lean model on the same inputs (navigation lines and channel results are
 an oracle tape taken from the real run; everything else the model computes itself), compare the
@@ -42,6 +43,30 @@ def hxl(l):
     return hexl([s.encode("utf-8") for s in l])
 
 
+# ---------- injected channel failures: kind -> (transport side, offset within the two writes / two reads of the
+# failing send_input call, action, model point, model exception class)   [Lean: SendFault.lean Point / FKind]
+FAULT_KINDS = {"silent": ("w", 2, "silent", "rl", "timeout"),            # the return of call k never reaches the device
+               "timeout": ("r", 2, "timeout", "ar", "timeout"),          # read to the prompt of call k: ScrapliTimeout
+               "conn-before": ("w", 1, "conn", "bw", "conn"),            # write of line k: ScrapliConnectionError
+               "timeout-echo": ("r", 1, "timeout", "al", "timeout"),     # echo read of line k: ScrapliTimeout
+               "conn-return": ("w", 2, "conn", "al", "conn"),            # write of the return: ScrapliConnectionError
+               "conn-read": ("r", 2, "conn", "ar", "conn")}              # read to the prompt: ScrapliConnectionError
+EXC_OF = {"timeout": "ScrapliTimeout", "conn": "ScrapliConnectionError"}
+
+
+def _install_fault(t, case):
+    from harness.simtransport import FaultPlan
+    from scrapli.exceptions import ScrapliConnectionError, ScrapliTimeout
+    k = case["fault"]["at_line"]
+    side, off, act = FAULT_KINDS[case["fault"]["kind"]][:3]
+    action = "silent" if act == "silent" else ScrapliTimeout("injected timeout") if act == "timeout" else \
+        ScrapliConnectionError("injected connection error")
+    if side == "w":
+        t.faults.append(FaultPlan(at_write=t.nwrites + 2 * k + off, action=action))
+    else:
+        t.faults.append(FaultPlan(at_read=t.nreads + 2 * k + off, action=action))
+
+
 # ---------- running the real code
 async def _aw(x):
     if asyncio.iscoroutine(x):
@@ -68,8 +93,9 @@ def expected_lines(case):
     return case["text"].splitlines()
 
 
-def _wrap_acquire(conn, dev, t, spans, is_async):
+def _wrap_acquire(conn, dev, t, spans, is_async, after=None):
     orig = conn.acquire_priv
+    pending = [after]
 
     def begin(p):
         return {"target": p, "belief": conn._current_priv_level.name, "mode": dev.mode_name(), "s": len(dev.exec_log), "ok": False}
@@ -77,6 +103,9 @@ def _wrap_acquire(conn, dev, t, spans, is_async):
     def end(rec):
         rec["e"] = len(dev.exec_log)
         spans.append(rec)
+        if pending[0] is not None and rec["ok"]:     # channel failure counted from the end of the navigation
+            fn, pending[0] = pending[0], None
+            fn()
 
     if is_async:
         async def w(desired_priv):
@@ -122,8 +151,9 @@ async def run_real(case, tmpdir):
         await _aw(conn.open())
         if case.get("session"):
             conn.register_configuration_session(case["session"])
+        late_fault = bool(case.get("fault")) and not case.get("warm") and plat != "generic"
         if plat != "generic":
-            _wrap_acquire(conn, dev, t, spans, is_async)
+            _wrap_acquire(conn, dev, t, spans, is_async, after=(lambda: _install_fault(t, case)) if late_fault else None)
         priv = case.get("priv", "")
         if case.get("warm") and plat != "generic":
             tgt = (priv or "configuration") if case["op"] in CFG_OPS else conn.default_desired_privilege_level
@@ -132,14 +162,8 @@ async def run_real(case, tmpdir):
             conn._generic_driver_mode = True
         del spans[:]
         n0, w0 = len(dev.exec_log), len(t.writes())
-        if case.get("fault"):
-            from harness.simtransport import FaultPlan
-            from scrapli.exceptions import ScrapliTimeout
-            k = case["fault"]["at_line"]
-            if case["fault"]["kind"] == "silent":      # the device stops answering from the return of line k on
-                t.faults.append(FaultPlan(at_write=t.nwrites + 2 * k + 2, action="silent"))
-            else:                                       # the read to the prompt of line k times out
-                t.faults.append(FaultPlan(at_read=t.nreads + 2 * k + 2, action=ScrapliTimeout("injected timeout")))
+        if case.get("fault") and not late_fault:
+            _install_fault(t, case)
         obs.update(generic="1" if case.get("generic_mode") and plat != "generic" else "0",
                    belief0=conn._current_priv_level.name if plat != "generic" else "", mode0=dev.mode_name(),
                    levels=[(n, p.pattern) for n, p in conn.privilege_levels.items()] if plat != "generic" else [],
@@ -191,6 +215,7 @@ async def run_real(case, tmpdir):
             obs["exc"] = type(e).__name__
             obs["exc_repr"] = repr(e)[:200]
         obs["containers_after"] = containers()
+        obs["alive"] = bool(t.isalive())
         first = {"wire": t.writes()[w0:], "belief1": conn._current_priv_level.name if plat != "generic" else "", "mode1": dev.mode_name()}
         n1 = len(dev.exec_log)
         spans_first = list(spans)
@@ -373,6 +398,17 @@ def parse_reply(line):
     return {"err": err, "log": lg, "wire": unhex(wire), "resps": rs, "belief": s(belief), "mode": s(mode), "merged": mg}
 
 
+def parse_fault_reply(line):
+    f = line.split(" ")
+    if len(f) != 6:
+        return None
+    outcome, log, wire, belief, mode, usable = f
+    def s(h):
+        return unhex(h).decode("utf-8")
+    lg = [] if log == "." else [(e.split(":")[0], s(e.split(":")[1]), s(e.split(":")[2])) for e in log.split(",")]
+    return {"outcome": outcome, "log": lg, "wire": unhex(wire), "belief": s(belief), "mode": s(mode), "usable": usable == "1"}
+
+
 def out_table_for(case, obs, twin_results=None):
     """Env.out = what the channel returned for (mode, line): taken from the real responses (oracle tape).
     For send_config (elements not returned) from the device truth (normal mode) or the twin run."""
@@ -413,27 +449,60 @@ def markers_in_effect(case, obs):
     return [f] if isinstance(f, str) else list(f)
 
 
+def expected_calls(case):
+    """the send_input calls a run WITHOUT channel failure makes according to the property text: the user lines up to and
+    including the first failing one with stop_on_failed (else all), then the vendor's abort lines when a configuration
+    run with stop_on_failed had a failing line (EOS / NX-OS: only inside a registered session)"""
+    fail = set(case["fail"])
+    sent = []
+    for l in expected_lines(case):
+        sent.append(l)
+        if case["stop"] and l.strip() in fail:
+            break
+    calls = [("u", l) for l in sent]
+    if case["op"] in CFG_OPS and case["stop"] and any(l.strip() in fail for l in sent):
+        ab = ABORT_SPEC.get(case["platform"], [])
+        if case["platform"] in SESSION_ONLY_ABORT and not case.get("session"):
+            ab = []
+        calls += [("a", l) for l in ab]
+    return calls
+
+
 def oracle_fault(case, obs):
-    """channel failure while line k is being sent (observed on the implementation only — the Lean model has no
-    failing channel): the error surfaces as it is, nothing is written after the failed line, no abort is attempted"""
+    """channel failure while send_input call k (a user line, or an abort line) is in progress: the error surfaces in its
+    class, the calls before k were each written once in order, of call k exactly what had been written before the
+    failure, nothing after it (no later line, no abort line, no extra return), navigation only before the first line"""
+    calls, k = expected_calls(case), case["fault"]["at_line"]
+    if "log" not in obs:         # the run never got to the operation (open / warm-up did not complete)
+        return [("stall", "driver waits for bytes the device never sends")] if obs.get("stall") else [("harness", str(obs.get("exc")))]
+    if k >= len(calls):          # never reached: the run must be the ordinary one
+        c2 = {x: y for x, y in case.items() if x != "fault"}
+        return oracle_core(c2, obs)
     v = []
-    lines, k, ret = expected_lines(case), case["fault"]["at_line"], case.get("ret", "\n").encode()
-    got = [l for _, _, l in obs["log"]]
-    if any(sp for sp, _, _ in obs["log"]):
-        v.append(("fault-nav", f"navigation during a failing run {obs['log']!r}"))
-    want_wire = b"".join(l.encode() + ret for l in lines[:k + 1])
+    _side, _off, _act, pt, fk = FAULT_KINDS[case["fault"]["kind"]]
+    ret = case.get("ret", "\n").encode()
+    seen_user = False
+    for sp, _, l in obs["log"]:
+        if not sp:
+            seen_user = True
+        elif seen_user or case.get("warm"):
+            v.append(("fault-nav", f"navigation during a failing run {obs['log']!r}"))
+            break
+    got = [l for sp, _, l in obs["log"] if not sp]
+    want = [l for _, l in calls[:k]] + ([calls[k][1]] if pt == "ar" else [])
+    if got != want:
+        v.append(("fault-log", f"device executed {got!r} after a channel failure ({case['fault']['kind']}) at call {k}, want {want!r}"))
+    line = calls[k][1].encode()
+    tail = {"bw": b"", "al": line, "ar": line + ret, "rl": line + ret}[pt]
+    want_wire = b"".join(l.encode() + ret for sp, _, l in obs["log"] if sp) + b"".join(l.encode() + ret for _, l in calls[:k]) + tail
     if obs["wire"] != want_wire:
-        v.append(("fault-wire", f"bytes written {obs['wire'][-60:]!r} after a channel failure at line {k}; want exactly the lines up to it {want_wire[-60:]!r}"))
+        v.append(("fault-wire", f"bytes written {obs['wire'][-60:]!r} after a channel failure ({case['fault']['kind']}) at call {k}; "
+                  f"want exactly the calls before it and the part of it already written {want_wire[-60:]!r}"))
     if case["fault"]["kind"] == "silent":
         if not obs["stall"]:
-            v.append(("fault-outcome", f"device went silent at line {k} but the call returned / raised {obs.get('exc')}"))
-        if got != lines[:k]:
-            v.append(("fault-log", f"device executed {got!r}, want {lines[:k]!r}"))
-    else:
-        if obs.get("exc") != "ScrapliTimeout":
-            v.append(("fault-outcome", f"injected ScrapliTimeout at line {k} surfaced as {obs.get('exc')} {obs.get('exc_repr')}"))
-        if got != lines[:k + 1]:
-            v.append(("fault-log", f"device executed {got!r}, want {lines[:k + 1]!r}"))
+            v.append(("fault-outcome", f"device went silent at call {k} but the call returned / raised {obs.get('exc')}"))
+    elif obs.get("exc") != EXC_OF[fk]:
+        v.append(("fault-outcome", f"injected {EXC_OF[fk]} at call {k} surfaced as {obs.get('exc')} {obs.get('exc_repr')}"))
     return v
 
 
@@ -858,7 +927,7 @@ def extra_special_cases(start_id):
             idn += 1
             # channel failures (warm, normal mode, non-empty lines so that every line costs two writes and two reads)
             for op in ("cfgs", "cmds"):
-                for kind in ("silent", "timeout"):
+                for kind in sorted(FAULT_KINDS):
                     for k in (0, 1, 2):
                         lv = CONFIG_LEVELS[plat][-1] if op == "cfgs" else ""
                         c = {**base, "id": idn, "platform": plat, "stack": stack, "op": op, "lines": ["l0", "bad", "l2"], "fail": ["bad"], "stop": k != 1,
@@ -869,6 +938,23 @@ def extra_special_cases(start_id):
                             c["fail"] = []      # otherwise the run stops before line 2
                         out.append(finish_case(c))
                         idn += 1
+            # channel failure inside _abort_config (call 2 / 3 = the abort lines after ["l0", "bad"]; IOS-XE has none: never
+            # reached), cold start (navigation first, failure counted from its end), and a failure scheduled behind the stop
+            lvl = CONFIG_LEVELS[plat][-1]
+            for kind in sorted(FAULT_KINDS):
+                for k, lines, warm, op in ((2, ["l0", "bad"], True, "cfgs"), (3, ["l0", "bad"], True, "cfgs"), (0, ["l0", "l1"], False, "cfgs"),
+                                           (1, ["l0", "bad", "l2"], False, "cfgs"), (2, ["l0", "bad", "l2"], True, "cmds"),
+                                           (1, ["l0", "l1"], True, "cfg"), (1, ["l0", "l1"], True, "cfgsfile")):
+                    c = {**base, "id": idn, "platform": plat, "stack": stack, "op": op, "fail": ["bad"], "stop": True, "warm": warm,
+                         "priv": lvl if op in CFG_OPS else "", "fault": {"kind": kind, "at_line": k}}
+                    if op in LIST_OPS:
+                        c["lines"] = lines
+                    else:
+                        c["text"] = "\n".join(lines) + ("\n" if op == "cfgsfile" else "")
+                    if c["priv"] == "@session":
+                        c["session"], c["priv"] = "s1", "s1"
+                    out.append(finish_case(c))
+                    idn += 1
     # file histories: the same path used again after rewrite / append / truncate / rename, same / new / other-stack connection
     for plat in NET_PLATFORMS + ["generic"]:
         for stack in ("sync", "async"):
@@ -964,7 +1050,7 @@ def in_domain(case):
 def model_domain(case):
     """domain in which model and code must agree (gating): everything the model can express — also lines the device
     interprets as mode changes; not lines with \\n / \\r / ESC / BS (the device splits or never echoes them) and
-    not injected channel failures (no failing channel in the model)"""
+    injected channel failures go to the failing-channel model (SendFault.lean) in evaluate()"""
     return not case["bad_chars"] and not case.get("fault")
 
 
@@ -977,6 +1063,14 @@ def evaluate(ck, cases, tmpdir, count=True):
     # model
     reqs, idx = [], []
     for i, (c, o) in enumerate(zip(allc, obs)):
+        if c.get("fault") and "log" in o and not (o["exc"] or "").startswith("HARNESS") and not c["bad_chars"] \
+                and (not o["stall"] or c["fault"]["kind"] == "silent"):
+            # the failing channel of SendFault.lean: Env.out = the device's own text for the lines it executed
+            tbl = {(m, l): dev_text(c, l).encode("utf-8") for sp, m, l in o["log"] if not sp}
+            fk = FAULT_KINDS[c["fault"]["kind"]]
+            reqs.append(f"F {fk[3]} {fk[4]} {c['fault']['at_line']} " + model_request(c, o, tbl))
+            idx.append(i)
+            continue
         if o["stall"] or (o["exc"] or "").startswith("HARNESS") or "log" not in o or c.get("fault"):
             continue
         tw = tw_obs.get(i) if i < len(cases) else None
@@ -991,7 +1085,7 @@ def evaluate(ck, cases, tmpdir, count=True):
     model = {}
     if mout is not None:
         for i, ml in zip(idx, mout):
-            model[i] = parse_reply(ml)
+            model[i] = parse_fault_reply(ml) if allc[i].get("fault") else parse_reply(ml)
     nviol = 0
     for i, (c, o) in enumerate(zip(cases, obs)):
         dom = in_domain(c)
@@ -1046,8 +1140,30 @@ def evaluate(ck, cases, tmpdir, count=True):
         if mout is None or mr is None and i not in idx:
             continue
         if mr is None:
-            if mdom and i in idx:
+            if (mdom or c.get("fault")) and i in idx:
                 ck.disagree("Send model vs drivers", c, "model driver replied bad-op")
+            continue
+        if c.get("fault"):
+            real_out = "timeout" if o["stall"] else "ok" if not o["exc"] else {"ScrapliTimeout": "timeout", "ScrapliConnectionError": "conn",
+                                                                         "IndexError": "index"}.get(o["exc"], o["exc"])
+            diffs = []
+            if mr["outcome"] != real_out:
+                diffs.append(f"outcome class impl={real_out} model={mr['outcome']}")
+            rl = [("n" if sp else "x", m, l) for sp, m, l in o["log"]]
+            ml = [("n" if og == "n" else "x", m, l) for og, m, l in mr["log"]]
+            if rl != ml:
+                diffs.append(f"device log impl={[(a, b, c_[:20]) for a, b, c_ in rl][:12]} model={[(a, b, c_[:20]) for a, b, c_ in ml][:12]}")
+            if o["wire"] != mr["wire"]:
+                diffs.append(f"write log impl={o['wire'][-40:]!r} model={mr['wire'][-40:]!r}")
+            if c["platform"] != "generic" and (o["belief1"], o["mode1"]) != (mr["belief"], mr["mode"]):
+                diffs.append(f"belief/mode after impl={(o['belief1'], o['mode1'])} model={(mr['belief'], mr['mode'])}")
+            if c["fault"]["kind"] != "silent" and real_out in ("timeout", "conn") and o.get("alive") != mr["usable"]:
+                diffs.append(f"connection usable afterwards impl={o.get('alive')} model={mr['usable']}")
+            if diffs:
+                ck.disagree("SendFault model vs drivers (failing channel)", {k: v for k, v in c.items() if k != "outputs"}, "; ".join(diffs))
+            else:
+                ck.traces_validated += 1
+                ck.extra["failing_channel_model_agrees"] = ck.extra.get("failing_channel_model_agrees", 0) + 1
             continue
         real_err = "ok" if not o["exc"] else "index" if o["exc"] == "IndexError" else \
             ("nav" if any(not s["ok"] for s in o["spans"]) else "priv") if o["exc"] == "ScrapliPrivilegeError" else o["exc"]
@@ -1128,8 +1244,9 @@ def run(tier, seed):
                       "lines that the device itself interprets as mode changes (end, exit, …) and lines containing \\n, \\r, ESC, BS are outside the "
                       "property's domain: model/code agreement only (advisory)",
                       "eager: results are whatever was read; only the device log, the wire and flag/result consistency are judged",
-                      "channel failures (timeout / silent device while line k is sent) are NOT in the Lean model; they are judged on the implementation "
-                      "only (error surfaces unchanged, nothing written after the failed line, no abort attempt)"]
+                      "channel failures: ONE failing send_input call of a user or abort line (four points, ScrapliTimeout / ScrapliConnectionError) is in the "
+                      "Lean model (SendFault.lean, theorems fault_*) and tied on injected faults; failures inside acquire_priv navigation and "
+                      "several failures in one run are not modelled; eager / eager_input runs are not fault-injected"]
     tmpdir = tempfile.mkdtemp(prefix="c13-")
     fixed_tree = None
     try:
@@ -1139,7 +1256,8 @@ def run(tier, seed):
         ck.extra["junos_abort_passes_level"] = fixed_tree
     except Exception as e:
         ck.proof_broken("translator gen/c13.py", repr(e))
-    ck.prove("ScrapliProps.C13", lemma_files=["ScrapliProps/C13Lemmas.lean", "ScrapliModel/Send.lean", "ScrapliModel/SendTypes.lean"])
+    ck.prove("ScrapliProps.C13", lemma_files=["ScrapliProps/C13Lemmas.lean", "ScrapliProps/C13FaultLemmas.lean", "ScrapliModel/Send.lean",
+                                              "ScrapliModel/SendFault.lean", "ScrapliModel/SendTypes.lean"])
     if tier == "thorough":
         ck.leanchecker("ScrapliProps.C13")
     # findings: own file until merged by the lead
